@@ -17,7 +17,7 @@ CHECKS = {
                         "by harness/poskeeper like app.NewPocketCoreApp, but no transactions/ante handler are run: tx fees are modelled by funding the fee collector.",
              assumptions=["reward delegator maps satisfy MsgStake.ValidateBasic (NormalizeRewardDelegators accepts them)",
                           "nodes params satisfy Params.Validate", "block height above the non-custodial rollback height (69583)"]),
-    "C27": c("rewards", "TestC27", dict(checks=8000, timeout=400), dict(checks=30000, shards=14, timeout=1500),
+    "C27": c("rewards", "TestC27", dict(checks=5000, timeout=400), dict(checks=30000, shards=14, timeout=1500),
              technique="metamorphic property-based testing (rapid): monotonicity / flatness relations between evaluations of the real "
                        "CalculateRelayReward and BurnForChallenge (supply delta) at neighbouring stakes and counts; deadline-based non-termination detection",
              design_ref="DESIGN.md §7 C27",
